@@ -431,6 +431,9 @@ class DiffRHS(object):
                     self.__jac_time = None
                     self.__jac_is_wrapped_rhs = False
             self.__jac_initialised = True
+        if self.__jac_is_wrapped_rhs and hasattr(self.rhs, 'jac'):
+            # a Jacobian attached to the function itself after finite differences were set up
+            self.hook_jacobian_call(self.rhs.jac)
         if self.__jac_is_wrapped_rhs:
             if t != self.__jac_time:
                 self.__jac_time = t
